@@ -38,7 +38,7 @@ func vVerifiesEcSha256(crt *cert.Certificate, key *ecdsa.PrivateKey) bool {
 }
 
 // vhManipulations: C19 by self-composition. The same configuration (P-256 or
-// RSA-2048 key given, SKI hash extension, fixed serial and clock) is generated without
+// RSA-2048 key given, SKI hash extension, unique ids, fixed serial and clock) is generated without
 // manipulations and with every subset of the six manipulation keys whose
 // values are symbolic; each named field must carry exactly the given value,
 // all other fields must equal the baseline, and the signature must verify
@@ -53,7 +53,8 @@ func vhManipulations() {
 	}
 	vAssert(kctx.GeneratePrivateKey(keyAlg) == nil, "key generation failed")
 	key := kctx.PrivateKey
-	base := CertConfig{Subject: "CN=x", SerialNumber: 4711, KeyAlgorithm: keyAlgName, Extensions: []AnyExtension{
+	base := CertConfig{Subject: "CN=x", SerialNumber: 4711, KeyAlgorithm: keyAlgName,
+		IssuerUniqueId: binaryPrefix + "AQIDBA==", SubjectUniqueId: binaryPrefix + "BQYHCAk=", Extensions: []AnyExtension{
 		{SubjectKeyIdentifier: &SubjectKeyIdentifier{Content: "hash"}}}}
 	b, err := vGenerateWithKey(base, key)
 	vAssert(err == nil, "baseline generation failed")
@@ -142,6 +143,8 @@ func vhManipulations() {
 	vSameBytes(vDer(ct.Issuer), vDer(bt.Issuer), "issuer changed")
 	vSameBytes(vDer(ct.Subject), vDer(bt.Subject), "subject changed")
 	vSameBytes(vDer(ct.Validity), vDer(bt.Validity), "validity changed")
+	vSameBytes(ct.IssuerUniqueId.Bytes, []byte{1, 2, 3, 4}, "the configured issuerUniqueId is not in a certificate with manipulations")
+	vSameBytes(ct.SubjectUniqueId.Bytes, []byte{5, 6, 7, 8, 9}, "the configured subjectUniqueId is not in a certificate with manipulations")
 	// signature
 	if sub&16 != 0 {
 		vSameBytes(c.SignatureValue.Bytes, sigval, ".signatureValue is not the given bytes")
